@@ -160,7 +160,7 @@ int main(int argc, char **argv) {
     Current::install(a.failing);
     Evidence ev;
     HistWeights w;
-    w.commands_from_active_only = false; w.probe = 5; w.qlt = 4; w.nstations = 3; w.raw = 0;
+    w.commands_from_active_only = false; w.probe = 5; w.qlt = 4; w.nstations = 3; w.raw = 0; w.pburst = 1;
     auto gen = [=](int force_phase) {
         return rc::gen::exec([=] {
             HCfg h = *hg::cfg_gen();
